@@ -44,3 +44,70 @@ NOT_APPLICABLE = {}
 LEVEL_TEXT["C04"] = ("every interleaving with at most c preemptions (c=2 quick; up to 3 thorough) of every enumerated 2-3 thread push/try_pop program on the real "
                      "queues with node sizes 1-2 is executed and its history checked for linearizability against a FIFO, with use-after-free, race and "
                      "progress monitors armed; exhaustive within the stated bounds, nothing is sampled")
+
+# ------------------------------------------------------------------------------------------------- C01 / C02 / C17
+# reclaim.cpp op bits: 0 read, 1 read_hold, 2 read_if_equal, 3 copy_read, 4 move_read, 5 replace, 6 remove, 7 rg_read, 8 none
+TITLES["C01"] = "Safe memory reclamation: no object is destroyed while a guard_ptr protects it"
+_c01_quick, _c01_thorough = [], []
+for r in RECL_ALL:
+    st = r == "stamp"
+    # all 2x2 programs over {read_hold, read_if_equal, copy_read, replace, remove, rg_read}, one cell
+    _c01_quick.append(run("reclaim", "proto_" + r, c=1, opt={"ops": 0xee}, weight=2.0 if st else 1.0))
+    # focused: holders vs unlinkers with two preemptions
+    _c01_quick.append(run("reclaim", "proto_" + r, c=1 if st else 2, opt={"ops": 0x62}, weight=1.0))
+    _c01_thorough.append(run("reclaim", "proto_" + r, c=2, opt={"ops": 0xff}, weight=8.0 if st else 3.0))
+    _c01_thorough.append(run("reclaim", "proto_" + r, c=2, opt={"ops": 0x66, "T": 3, "m": 1}, weight=2.0))
+    _c01_thorough.append(run("reclaim", "proto_" + r, c=1, opt={"ops": 0x62, "cells": 2}, weight=1.0))
+    if not st:
+        _c01_thorough.append(run("reclaim", "proto_" + r, c=3, opt={"ops": 0x62}, weight=4.0))
+PLAN["C01"] = {
+    "quick": _c01_quick, "thorough": _c01_thorough, "budget_s": {"quick": 170, "thorough": 1500},
+    "rule": "client programs: T threads x m operations over {acquire+deref, acquire+hold across later operations, acquire_if_equal, copy/assign then reset the original, "
+            "move/swap, unlink by CAS + reclaim (replace/remove), two acquires inside a region_guard} on 1-2 shared concurrent_ptr cells, all assignments enumerated "
+            "(symmetric duplicates and programs without an unlinker pruned); oracle: ledger (constructed/destroyed per node id) consulted at every dereference through a "
+            "guard, payload integrity, heap lifetime shadow (no access to freed memory, quarantine: freed memory is never reused), race-with-deallocation check",
+    "assumptions": ["reclaimers are instantiated with the most eager reclamation parameters (scan threshold 0, scan_frequency 0) so that a protocol error surfaces inside a short history"],
+}
+LEVEL_TEXT["C01"] = ("all interleavings with <= c preemptions (c=1..2 quick, 2..3 thorough) of all enumerated protocol-conforming 2-3 thread client programs, for 13 "
+                     "reclaimer configurations; every dereference through a guard is checked against the ledger and the heap lifetime shadow")
+
+TITLES["C02"] = "Retired objects are destroyed exactly once by their own deleter, never leaked"
+_c02_quick, _c02_thorough = [], []
+for r in RECL_ALL:
+    st = r == "stamp"
+    # updaters and holders, threads exiting at different operation boundaries (op `none`), census after flush
+    _c02_quick.append(run("reclaim", "proto_" + r, c=1, opt={"ops": 0x162, "allow_update_only": 1}, weight=2.0 if st else 1.0))
+    _c02_quick.append(run("reclaim", "proto_" + r, c=1, opt={"ops": 0x62, "allow_update_only": 1, "T": 3, "m": 1}, weight=1.0))
+    _c02_thorough.append(run("reclaim", "proto_" + r, c=2, opt={"ops": 0x162, "allow_update_only": 1}, weight=4.0 if st else 2.0))
+    _c02_thorough.append(run("reclaim", "proto_" + r, c=2, opt={"ops": 0x62, "allow_update_only": 1, "T": 3, "m": 1}, weight=2.0))
+    _c02_thorough.append(run("reclaim", "proto_" + r, c=1, opt={"ops": 0x62, "allow_update_only": 1, "gens": 2, "m": 1}, weight=1.0))
+PLAN["C02"] = {
+    "quick": _c02_quick, "thorough": _c02_thorough, "budget_s": {"quick": 170, "thorough": 1500},
+    "rule": "client programs as for C01 with updaters only / updaters + holders, threads that exit early (operation `none`), 2-3 threads and up to 2 thread "
+            "generations; stateful deleter (carries the id of the node it belongs to; default_delete for lock_free_ref_count which accepts nothing else); after all "
+            "threads exited T0 unlinks what is still published and performs a public-API flush (8 rounds: region_guard + retire of a fresh dummy); census: every "
+            "retired node destroyed exactly once, by its own deleter instance, nothing destroyed unretired, nothing retired left undestroyed; heap shadow reports double free",
+    "assumptions": ["leak freedom is checked at the quiescent end of finite histories after the flush; dummy nodes used by the flush itself are exempt from the leak census"],
+}
+LEVEL_TEXT["C02"] = ("all interleavings with <= c preemptions (1 quick, 2 thorough) of all enumerated retire/hold/exit programs for 13 reclaimer configurations, "
+                     "including threads exiting with non-empty retire lists; exactly-once destruction by the right deleter and the end-of-history census are checked on every execution")
+
+TITLES["C17"] = "Dynamic threads: bookkeeping is recycled; exited threads never block or leak"
+_c17_quick, _c17_thorough = [], []
+for r in RECL_ALL:
+    st = r == "stamp"
+    _c17_quick.append(run("reclaim", "proto_" + r, c=1, opt={"ops": 0x6a, "allow_update_only": 1, "gens": 2, "m": 1}, weight=2.0 if st else 1.0))
+    _c17_quick.append(run("reclaim", "proto_" + r, c=1 if st else 2, opt={"ops": 0x62, "allow_update_only": 1, "gens": 3, "m": 1, "T": 1}, weight=1.0))
+    _c17_thorough.append(run("reclaim", "proto_" + r, c=2, opt={"ops": 0x6a, "allow_update_only": 1, "gens": 2, "m": 1}, weight=3.0))
+    _c17_thorough.append(run("reclaim", "proto_" + r, c=1, opt={"ops": 0x62, "allow_update_only": 1, "gens": 3, "m": 1}, weight=3.0))
+    _c17_thorough.append(run("reclaim", "proto_" + r, c=1, opt={"ops": 0x62, "allow_update_only": 1, "gens": 2, "m": 2}, weight=3.0))
+PLAN["C17"] = {
+    "quick": _c17_quick, "thorough": _c17_thorough, "budget_s": {"quick": 170, "thorough": 1500},
+    "rule": "G = 2..3 generations of T = 1..2 overlapping threads (fresh pthreads, thread_local reclaimer state constructed and destroyed per thread, destructors explored "
+            "as part of the execution), each running an enumerated program of guarded reads / holds / unlink+reclaim; after every generation T0 flushes through the "
+            "public API and checks (a) the C01/C02 oracles across record reuse, (b) the census: everything retired so far is destroyed although its retirer has exited, "
+            "(c) live heap allocations not belonging to client nodes <= footprint of T0 + T x (measured footprint of one thread)",
+    "assumptions": ["per-thread footprint is measured on T0 performing the same kinds of guard operations as the workers"],
+}
+LEVEL_TEXT["C17"] = ("all interleavings with <= c preemptions of all enumerated multi-generation thread programs (threads created, exiting and being replaced) for 13 "
+                     "reclaimer configurations; bookkeeping footprint bound, conservation census and guard safety checked after every generation")
